@@ -113,6 +113,11 @@ Section Request.
     on_message m im t = Some (m, respond im txt CError, false).
   Proof. intros He Ha. rewrite (on_message_answers _ _ _ _ Hset Hok), He, Ha. reflexivity. Qed.
 
+  (* a leaf whose value does not fit the device's transmit buffer: an Error response with the text *)
+  Theorem e2e_get_large m t txt : m_empty im = true -> m_ans im = AGetLarge txt ->
+    on_message m im t = Some (m, respond im txt CError, false).
+  Proof. intros He Ha. rewrite (on_message_answers _ _ _ _ Hset Hok), He, Ha. reflexivity. Qed.
+
   (* list: the request is accepted when idle and within the cache limits ... *)
   Theorem e2e_list_starts m t leaves : m_empty im = true -> m_ans im = AInternal leaves -> st m = Single ->
     too_long MAX_TOPIC_LENGTH (Some rtp) = false -> too_long MAX_CD_LENGTH (Some cdb) = false ->
